@@ -5,8 +5,19 @@
 #[cfg(kani)]
 mod verif_kani_tokrollback {
     use crate::api::StopReason;
-    use anyhow::{ensure, Result};
     use toktrie::TokenId;
+
+    // R3: anyhow's ensure!(c, fmt..) is `if !c { return Err(anyhow!(fmt..)) }`; the message (format! + backtrace capture,
+    // which dominate CBMC's cost) is dropped: the pasted methods resolve `ensure!` and `Result` to these local definitions.
+    struct ShimError;
+    type Result<T> = core::result::Result<T, ShimError>;
+    macro_rules! ensure {
+        ($c:expr, $($t:tt)*) => {
+            if !($c) {
+                return Err(ShimError);
+            }
+        };
+    }
 
     //@@ fnspan parser/src/tokenparser.rs tp_rollback TokenParser::rollback
     //@@ fnspan parser/src/tokenparser.rs tp_clear_caches TokenParser::clear_caches
@@ -37,7 +48,7 @@ mod verif_kani_tokrollback {
             self.calls += 1;
             self.last_arg = n;
             if self.fail || n > self.nbytes {
-                return Err(anyhow::Error::msg("x"));
+                return Err(ShimError);
             }
             self.nbytes -= n;
             Ok(())
@@ -66,10 +77,6 @@ mod verif_kani_tokrollback {
         /*@@paste tp_check_initialized*/
         /*@@paste tp_stopped*/
         /*@@paste tp_error_message*/
-    }
-
-    fn stub_format(_args: core::fmt::Arguments<'_>) -> String {
-        String::new()
     }
 
     fn any_stop_reason() -> StopReason {
@@ -176,25 +183,21 @@ mod verif_kani_tokrollback {
 
     #[kani::proof]
     #[kani::unwind(6)]
-    #[kani::stub(alloc::fmt::format, stub_format)]
     fn tok_rollback_n0() {
         run::<0>();
     }
     #[kani::proof]
     #[kani::unwind(6)]
-    #[kani::stub(alloc::fmt::format, stub_format)]
     fn tok_rollback_n1() {
         run::<1>();
     }
     #[kani::proof]
     #[kani::unwind(6)]
-    #[kani::stub(alloc::fmt::format, stub_format)]
     fn tok_rollback_n2() {
         run::<2>();
     }
     #[kani::proof]
     #[kani::unwind(6)]
-    #[kani::stub(alloc::fmt::format, stub_format)]
     fn tok_rollback_n3() {
         run::<3>();
     }
@@ -202,7 +205,6 @@ mod verif_kani_tokrollback {
     // vacuity guard: must FAIL (claims a rollback never changes the token count)
     #[kani::proof]
     #[kani::unwind(6)]
-    #[kani::stub(alloc::fmt::format, stub_format)]
     fn mustfail_tok_rollback_keeps_tokens() {
         let mut tp = ShimTP {
             trie: ShimTrie { lens: [1; VOCAB] },
